@@ -27,9 +27,9 @@ TRUSTED = [
     "modelled by hand: BitParser's trie walk, CCITTG4Parser's mode interpretation and line handling, output_line "
     "(Model/CCITT.v); generated from source on every run: every BitParser.add of MODE / WHITE / BLACK (Gen/CCITTTables.v). "
     "The T.4/T.6 code tables of the specification are typed into Spec/T6Tables.v and compared by vm_compute",
-    "uncompressed mode is not modelled; proved for encodings without EncodedByteAlign: the whole chain from bytes to rows "
-    "(tables, prefix-freeness, trie walk, run-length codes, mode layer, glue, bit packing); EncodedByteAlign=true (ByteSkip), "
-    "EOFB after the last row and the PDFStream wrapper are covered by differential runs",
+    "uncompressed mode is not modelled; proved about the model: the whole chain from bytes to rows (tables, prefix-freeness, "
+    "trie walk, run-length codes, mode layer, glue, bit packing), with and without EncodedByteAlign, with or without EOFB; the "
+    "PDFStream wrapper around the decoder is covered by differential runs",
 ]
 ASSUMPTIONS = ["Columns >= 1; K = -1"]
 MANIFEST_ENTRY = {
@@ -49,8 +49,9 @@ MANIFEST_ENTRY = {
             "decomposition of both runs) drives the bit-level parser to that reaction; hence the bytes of any admissible "
             "encoding without EncodedByteAlign, zero-padded to a byte boundary, make the model of ccittfaxdecode return "
             "exactly the packed rows, for either polarity, and every bitmap has such an encoding "
-            "(C19_every_bitmap_round_trips). NOT proved: EncodedByteAlign=true and the EOFB marker (covered by exhaustive "
-            "small bitmaps and random large ones) - claimed partial for those configurations.",
+            "(C19_every_bitmap_round_trips); the same followed by EOFB and arbitrary bytes; and with "
+            "EncodedByteAlign: every row a whole number of bytes with up to seven arbitrary fill bits (this needs, and the "
+            "development proves, that no proper prefix of a row's bit string stops the parser).",
     "note": "Trusted: Coq kernel, table translator, typed-in T.4/T.6 tables, hand model tied by differential runs, harness encoder.",
     "design_ref": "DESIGN.md section 4, C19",
 }
@@ -306,7 +307,7 @@ def correspondence(ctx):
                               pack(rows, bi1).hex(), data.hex() if isinstance(data, bytes) else str(data),
                               "PDFStream.get_data() of a /CCITTFaxDecode /K -1 stream is not the original rows")
     ctx.note("modes chosen by the encoder: %r" % modes_used)
-    bad = common.coq_cases("c19", ["Model.CCITT", "Model.CCITTRun"], "run_g4", cases, shard=150)
+    bad = common.coq_cases("c19", ["Model.CCITT", "Model.CCITTRun"], "run_g4", cases, shard=150, show_max=150)
     for i, shown in sorted(bad.items()):
         family, w, enc, align, bi1 = metas[i]
         if shown.strip() == "[2]":
